@@ -128,6 +128,10 @@ func c16State(cfg c04cfg) func(st *engine.Step) {
 			if _, ok := w.DB.Users[U3]; ok {
 				pair("account-existence-recover", "browser="+b+",unconfirmed-account", flows.RecoverStart(s, b, U3), flows.RecoverStart(s, b, U0))
 			}
+			// the same with the mail transport down: what the client sees must not depend on whether a mail was attempted
+			s.MailFault = true
+			pair0("account-existence-recover", "browser="+b+",mailer-down", flows.RecoverStart(s, b, U2), flows.RecoverStart(s, b, U0))
+			s.MailFault = false
 		}
 	}
 }
